@@ -222,6 +222,9 @@ def predicate(line, obs, allow_known=False):
                     return f"errors.As(type {ty}) = {a} but constituents say {want}"
         return None
     if t[0] == "collector":
+        if obs.startswith("UNSTABLE "):
+            return ("the outcome of concurrent Collector.Add calls depends on the interleaving (an Add was lost or duplicated): "
+                    + obs[9:260])
         ids = [int(x) for x in t[1]]
         ps = parts_all([ev(x) for x in t[2:]])
         m = re.match(r"len=(\d+) nil=(\d) is=(\S*) unwind=\[(.*)\]", obs)
@@ -324,3 +327,7 @@ def put(t, path, v):
     t = list(t)
     t[path[0]] = put(t[path[0]], path[1:], v)
     return t
+
+
+def conclusive(line):
+    return line.startswith("(collector")
